@@ -21,7 +21,7 @@ RULE = ("trees of lower-case .cmake files at depth 0..4 whose contents are gener
         "<name>' both equal <name>, the doccomment body is the module directive's content and none of it appears in the "
         "following command's entry. Non-trivial: depth>=2 or separator != '.' or lone-file input or '@module' directly "
         "followed by a command; distinct by SHA-1 of the case")
-RULE_MORE = "input directory names with dots, a leading dot or blanks (the default prefix); '@module' names ending in '.cmake'. Later: prior run under another prefix; dir-link mode; backslash and blank-ended names; braces in prefix / separator; whitespace variants around '@module'; (round 10) prefixes holding '/' (`org/project`, `tools/`), a backup mirror below the input directory that repeats the input directory's absolute path; the title frame of every index.rst."
+RULE_MORE = "input directory names with dots, a leading dot or blanks (the default prefix); '@module' names ending in '.cmake'. Later: prior run under another prefix; dir-link mode; backslash and blank-ended names; braces in prefix / separator; whitespace variants around '@module'; (round 10) prefixes holding '/' (`org/project`, `tools/`), a backup mirror below the input directory that repeats the input directory's absolute path; the title frame of every index.rst; (round 11) the parent of the input directory documented first in the same process."
 ASSUMPTIONS = ["file names end in lower-case .cmake", "how inner path components are joined is not constrained, only their order"]
 BUDGET = {"quick": {"shards": 8, "examples": 100}, "thorough": {"shards": 16, "examples": 1500}}
 
@@ -64,6 +64,7 @@ def strategy(tier):
         # the same input was documented into the same output before, under another prefix and other header characters
         "prior": st.sampled_from([False, False, True]),
         "mirror": st.sampled_from([False, False, False, True]),
+        "parent_first": st.sampled_from([False, True, False]),
         "inname": st.sampled_from(["in", "widgets-2.1", "in", "my.project", ".proj", "v1.2.3", "In Put", "lib.cmake"]),
     })
 
@@ -246,6 +247,10 @@ def evaluate(case):
                 with open(os.path.join(other, nm), "w") as f:
                     f.write("function(zz_fn a)\nendfunction()\n")
             argv = [other] + argv
+        if case.get("parent_first") and not lone:
+            # the directory that holds the input directory was documented before in this process: other root, same files
+            res.labels.append("parent-directory-documented-first")
+            S.run_main([os.path.dirname(os.path.abspath(inp)), "-r", "-o", sb.path("out_of_parent_run")], cwd=cwd)
         if case.get("prior"):
             res.labels.append("prior-run-with-another-prefix")
             S.run_main([a for a in argv if a != cfg and a != "-s"] + ["-p", "EarlierPrefix"], cwd=cwd)
